@@ -64,7 +64,12 @@ func normalizeLimits(limits Limits) Limits {
 func (l *Loader) SetLimits(limits Limits) {
 	l.mu.Lock()
 	defer l.mu.Unlock()
-	l.limits = normalizeLimits(limits)
+	limits = normalizeLimits(limits)
+	if limits != l.limits {
+		// files were admitted to the cache under the old limits
+		l.cache = make(map[string]cachedFile)
+	}
+	l.limits = limits
 }
 
 func (l *Loader) getLimits() Limits {
